@@ -491,6 +491,34 @@ def run(ctx) -> None:
     parent_eq = [x for x in walk_local(ext.node) if isinstance(x, ast.Compare) and len(x.ops) == 1 and isinstance(x.ops[0], ast.Eq) and any("parent" in src(y) for y in [x.left, x.comparators[0]]) and any(isinstance(y, ast.Call) and isinstance(y.func, ast.Attribute) and y.func.attr == "get" for y in [x.left, x.comparators[0]])]
     oke = bool(itervars) and bool(negated) and not parent_eq
     rep.add("C20.R8", f"{ext.qname}:outside-by-parent-chain", oke, ext.loc(), "a consumer anywhere in the flat graph counts unless is_descendant_of places it inside the container" if oke else ("external consumers are selected by comparing a node's parent with one scope: only siblings of the container count, a consumer further out is missed and the value loses its DATA node while edges are still routed through it" if parent_eq else "external consumers are not decided by 'not is_descendant_of(<node>, <container>)' over all nodes of the flat graph"))
+    # a visible consumer is dropped from the consumer map only in favour of one of its own descendants (the container is
+    # represented by what is visible inside it) — never because some unrelated consumer happens to sit deeper
+    pcm = db.func("viz._common.build_param_to_consumer_map")
+    okc, whyc = False, "the step that drops containers with deeper visible consumers was not found"
+    for lp in [n for n in walk_local(pcm.node) if isinstance(n, ast.For) and isinstance(n.iter, ast.Call) and isinstance(n.iter.func, ast.Attribute) and n.iter.func.attr == "items" and isinstance(n.target, ast.Tuple) and len(n.target.elts) == 2 and all(isinstance(e, ast.Name) for e in n.target.elts)]:
+        mapname, cv = src(lp.iter.func.value), lp.target.elts[1].id
+        stores = [x for x in ast.walk(lp) if isinstance(x, ast.Assign) and isinstance(x.targets[0], ast.Subscript) and src(x.targets[0].value) == mapname]
+        if not stores or any(isinstance(a, ast.If) and "primary" in src(a.test) for a in ancestors(lp)):
+            continue
+        over = set()
+        for x in ast.walk(lp):
+            gens = x.generators if isinstance(x, (ast.GeneratorExp, ast.ListComp, ast.SetComp)) else [x] if isinstance(x, ast.For) and x is not lp else []
+            for g_ in gens:
+                if isinstance(g_.iter, ast.Name) and g_.iter.id == cv and isinstance(g_.target, ast.Name):
+                    over.add(g_.target.id)
+        dcalls = [c for c in ast.walk(lp) if isinstance(c, ast.Call) and "is_descendant_of" in call_names(db, c, pcm) and len(c.args) >= 2 and all(isinstance(a, ast.Name) and a.id in over for a in c.args[:2]) and c.args[0].id != c.args[1].id]
+        kept = {c.args[0].id for c in ast.walk(lp) if isinstance(c, ast.Call) and isinstance(c.func, ast.Attribute) and c.func.attr == "append" and c.args and isinstance(c.args[0], ast.Name)} | {x.elt.id for x in ast.walk(lp) if isinstance(x, ast.ListComp) and isinstance(x.elt, ast.Name) and isinstance(x.generators[0].iter, ast.Name) and x.generators[0].iter.id == cv}
+        depth = [c for c in ast.walk(lp) if isinstance(c, ast.Call) and any("depth" in nm for nm in call_names(db, c, pcm) | {(dotted(c.func) or "")})]
+        if depth:
+            okc, whyc = False, f"'{src(depth[0])[:50]}' decides which visible consumers are dropped by nesting depth: a collapsed container is dropped as soon as an unrelated sibling branch has a deeper visible consumer of the same value (A expanded, A/B collapsed, A/C expanded) — the edge to A/B, the only visible representative of A/B's inner consumer, is never drawn"
+        elif not dcalls:
+            okc, whyc = False, "dropping a consumer is not decided by is_descendant_of(<other consumer>, <this consumer>) over the consumers of the value"
+        elif not all(c.args[1].id in kept for c in dcalls):
+            okc, whyc = False, f"'{src(dcalls[0])}' tests the wrong direction: the consumer that is kept or dropped must be the ancestor argument"
+        else:
+            okc, whyc = True, "a consumer is dropped only when another visible consumer of the value is its descendant"
+        break
+    rep.add("C20.R8", f"{pcm.qname}:dropped-only-for-own-descendant", okc, pcm.loc(), whyc)
     if n8 < 20:
         raise AnalysisError(f"only {n8} flat-graph functions found")
     # every node id a scope function hands back as a place to attach an edge was tested for visibility itself: a
@@ -569,6 +597,8 @@ VARIANTS = [
     Variant("mermaid-end-edges-from-hidden-gates", MM, replace_once("        if not is_node_visible(node_id, flat_graph, expansion_state):\n            continue\n\n        emitted = False", "        emitted = False"), {"C20.R6"}),
     Variant("merged-deepest-unmapped", ED, replace_once("                if internal_producer:\n                    # The deepest producer may sit inside a collapsed inner container\n                    internal_producer = nearest_visible(internal_producer, flat_graph, expansion_state)\n", ""), {"C20.R7"}),
     Variant("twin-rename-consumer-list", ED, lambda s: s.replace("internal_consumers", "inner_targets"), set()),
+    Variant("consumer-dropped-when-it-is-the-descendant", "src/hypergraph/viz/_common.py", replace_once("                if is_descendant_of(other, consumer, flat_graph):\n                    has_deeper_descendant = True", "                if is_descendant_of(consumer, other, flat_graph):\n                    has_deeper_descendant = True"), {"C20.R8"}),
+    Variant("twin-consumer-filter-as-comprehension", "src/hypergraph/viz/_common.py", replace_once("        filtered = []\n        for consumer in consumers:\n            has_deeper_descendant = False\n            for other in consumers:\n                if other == consumer:\n                    continue\n                if is_descendant_of(other, consumer, flat_graph):\n                    has_deeper_descendant = True\n                    break\n            if not has_deeper_descendant:\n                filtered.append(consumer)\n        param_to_consumers[param] = filtered\n", "        param_to_consumers[param] = [consumer for consumer in consumers if not any(is_descendant_of(other, consumer, flat_graph) for other in consumers if other != consumer)]\n"), set()),
     Variant("external-consumers-siblings-only", "src/hypergraph/viz/renderer/scope.py", replace_once("        if output_param in attrs.get(\"inputs\", ()) and not is_descendant_of(node_id, source_container, flat_graph):", "        if output_param in attrs.get(\"inputs\", ()) and attrs.get(\"parent\") == get_parent(source_container, flat_graph):"), {"C20.R8"}),
     Variant("twin-external-consumers-any", "src/hypergraph/viz/renderer/scope.py", replace_once("    for node_id, attrs in flat_graph.nodes(data=True):\n        if output_param in attrs.get(\"inputs\", ()) and not is_descendant_of(node_id, source_container, flat_graph):\n            return True\n\n    return False", "    return any(output_param in attrs.get(\"inputs\", ()) and not is_descendant_of(node_id, source_container, flat_graph) for node_id, attrs in flat_graph.nodes(data=True))"), set()),
 ]
